@@ -164,7 +164,7 @@ def run_chunk(prop, seed, n_ops, workdir, replay=None, driver_args=(), rtol=1e-1
         fh.write("\n".join(model) + "\n")
     res["driver_rc"] = p.returncode
     res["report"] = json.load(open(os.path.join(workdir, "report.json"), encoding="utf-8"))
-    compared, unmodelled, dis, stopped = compare_streams(ops, impl, model, rtol)
+    compared, unmodelled, dis, stopped = compare_streams(ops, impl, model, rtol, set(res["report"].get("skip_compare", [])))
     res.update({"compared": compared, "unmodelled": unmodelled, "disagreement": dis,
                 "stopped_at": stopped, "n_ops": len(ops)})
     return res
